@@ -2,6 +2,7 @@ package main
 
 import (
 	"fmt"
+	"strings"
 )
 
 func fmtU(xs []uint64) string { return fmt.Sprint(xs) }
@@ -64,5 +65,624 @@ func ruleSetNewVal(c *Check, rule string) {
 			return
 		}
 		c.Ok(rule, name, fmt.Sprintf("%d paths: empty ⇒ one Del(key); equal ⇒ no LMDB mutation; changed ⇒ one Put(key,new)", len(w.Paths)), pos)
+	}
+}
+
+// ---------------------------------------------------------------------------
+// T-ITERUPDATE: the callback of IterUpdate (C19-R2, C10-R1, C04-R2b).
+// ---------------------------------------------------------------------------
+
+const (
+	txnPut  = "(*lmdb.Txn).Put"
+	txnDel  = "(*lmdb.Txn).Del"
+	curPut  = "(*lmdb.Cursor).Put"
+	curDel  = "(*lmdb.Cursor).Del"
+	txnDrop = "(*lmdb.Txn).Drop"
+	itMerge = "iface:lmdbenv/strategy.Iterator.Merge"
+	itClean = "iface:lmdbenv/strategy.Iterator.Clean"
+	itNext  = "iface:lmdbenv/strategy.Iterator.Next"
+)
+
+func mutators(p *Path) []*Event {
+	return callsOf(p, txnPut, txnDel, curPut, curDel, txnDrop)
+}
+
+func ruleIterUpdateTable(c *Check, rule string) {
+	name := fnIterUpd + "$1"
+	fn, paths := c.walkFn(rule, name, WalkConfig{})
+	if paths == nil {
+		return
+	}
+	pos := c.P.Pos(fn.Pos())
+	itKey, dbKey, dbVal, itEOF, dbEOF := param(fn, 0), param(fn, 1), param(fn, 2), param(fn, 3), param(fn, 4)
+	appendFlag, _ := c.constValue2("github.com/PowerDNS/lmdb-go/lmdb", "Append")
+	cells := map[string]int{}
+	bad := 0
+	fail := func(p *Path, cell, msg string) {
+		bad++
+		c.Bad(rule, name+"/"+cell, msg, c.pathPos(p), describe(c, p))
+	}
+	for i := range paths {
+		p := &paths[i]
+		muts := mutators(p)
+		cleans := callsOf(p, itClean)
+		merges := callsOf(p, itMerge)
+		// a failing iterator or LMDB call must return an error without further mutation
+		if p.End != "return" {
+			fail(p, "shape", "the callback does not return")
+			continue
+		}
+		e1, f1 := boolCond(p, itEOF, -1)
+		kn, f2 := boolCond(p, "isnil("+itKey+")", -1)
+		cleanCase := (f1 && e1) || (f2 && kn)
+		if cleanCase {
+			if len(merges) != 0 || len(cleans) != 1 || cleans[0].Args[1] != dbVal {
+				fail(p, "db-only/clean-called", "a stored key absent from the input does not get exactly one Clean(stored value)")
+				continue
+			}
+			cl := cleans[0]
+			if ok, f := boolCond(p, "isnil("+cl.Res+"#1)", -1); !f || !ok {
+				if len(muts) != 0 || retIsNilErr(p) {
+					fail(p, "db-only/clean-error", "a failing Clean is not returned as an error before any mutation")
+				}
+				continue
+			}
+			isNil, fn1 := boolCond(p, "isnil("+cl.Res+"#0)", -1)
+			eq := p.State.RelOf("bytes", cl.Res+"#0", dbVal)
+			switch {
+			case fn1 && isNil:
+				cells["db-only:nil=>Del"]++
+				if len(muts) != 1 || muts[0].Callee != curDel {
+					fail(p, "db-only/nil-deletes", "Clean returned nil but the entry under the cursor is not deleted exactly once")
+				}
+			case fn1 && !isNil && eq == EQ:
+				cells["db-only:equal=>none"]++
+				if len(muts) != 0 {
+					fail(p, "db-only/equal-no-write", "Clean returned the stored value unchanged but the callback writes")
+				}
+			case fn1 && !isNil && eq&EQ == 0:
+				cells["db-only:changed=>Put"]++
+				if len(muts) != 1 || muts[0].Callee != txnPut || muts[0].Args[2] != dbKey || muts[0].Args[3] != cl.Res+"#0" {
+					fail(p, "db-only/changed-puts", "Clean returned a changed value but it is not Put under the stored key exactly once")
+				}
+			default:
+				fail(p, "db-only/undetermined", "the result of Clean is acted upon without determining nil / equal / changed")
+			}
+			continue
+		}
+		if !(f1 && !e1 && f2 && !kn) {
+			fail(p, "dispatch", "the callback acts without determining whether the input side is exhausted (itEOF / itKey == nil)")
+			continue
+		}
+		if len(cleans) != 0 || len(merges) == 0 || merges[0].Args[1] != "nil" {
+			fail(p, "input/merge-nil-first", "an input key does not start with Merge(nil)")
+			continue
+		}
+		m0 := merges[0]
+		if ok, f := boolCond(p, "isnil("+m0.Res+"#1)", -1); !f || !ok {
+			if len(muts) != 0 || retIsNilErr(p) {
+				fail(p, "input/merge-error", "a failing Merge is not returned as an error before any mutation")
+			}
+			continue
+		}
+		de, fd := boolCond(p, dbEOF, -1)
+		dk, fk := boolCond(p, "isnil("+dbKey+")", -1)
+		switch {
+		case fd && de, fd && !de && fk && dk:
+			// input-only key: at end of database (append) or behind the cursor (put)
+			atEnd := de
+			l0 := p.State.RelOf("int", "len("+m0.Res+"#0)", "const:0")
+			if len(merges) != 1 {
+				fail(p, "input-only/one-merge", "an input-only key is merged more than once")
+				continue
+			}
+			switch {
+			case l0 == EQ:
+				cells["input-only:empty=>none"]++
+				if len(muts) != 0 {
+					fail(p, "input-only/empty-no-write", "Merge(nil) returned nothing to store but the callback writes")
+				}
+			case l0&EQ == 0:
+				if atEnd {
+					cells["input-only@end:value=>Append"]++
+					if len(muts) != 1 || muts[0].Callee != curPut || muts[0].Args[1] != itKey || muts[0].Args[2] != m0.Res+"#0" || muts[0].Args[3] != "const:"+appendFlag {
+						fail(p, "input-only/append", "a new key past the end of the DBI is not appended exactly once as (input key, merged value, MDB_APPEND)")
+					}
+				} else {
+					cells["input-only:value=>Put"]++
+					if len(muts) != 1 || muts[0].Callee != txnPut || muts[0].Args[2] != itKey || muts[0].Args[3] != m0.Res+"#0" {
+						fail(p, "input-only/put", "a new key before the cursor is not Put exactly once as (input key, merged value)")
+					}
+				}
+			default:
+				fail(p, "input-only/undetermined", "the merged value is stored or dropped without testing whether it is empty")
+			}
+		case fd && !de && fk && !dk:
+			// both sides have the key
+			if len(merges) != 2 || merges[1].Args[1] != dbVal {
+				if len(merges) == 1 {
+					fail(p, "both/merge-stored", "a key present on both sides is not merged with the stored value")
+				}
+				continue
+			}
+			m1 := merges[1]
+			if ok, f := boolCond(p, "isnil("+m1.Res+"#1)", -1); !f || !ok {
+				if len(muts) != 0 || retIsNilErr(p) {
+					fail(p, "both/merge-error", "a failing Merge(stored) is not returned as an error before any mutation")
+				}
+				continue
+			}
+			l1 := p.State.RelOf("int", "len("+m1.Res+"#0)", "const:0")
+			eq := p.State.RelOf("bytes", m1.Res+"#0", dbVal)
+			switch {
+			case l1 == EQ:
+				cells["both:empty=>Del"]++
+				if len(muts) != 1 || muts[0].Callee != curDel {
+					fail(p, "both/empty-deletes", "Merge(stored) returned nothing but the entry is not deleted exactly once")
+				}
+			case l1&EQ == 0 && eq == EQ:
+				cells["both:equal=>none"]++
+				if len(muts) != 0 {
+					fail(p, "both/equal-no-write", "Merge(stored) returned the stored value unchanged but the callback writes (write amplification; a kept entry must leave LMDB untouched)")
+				}
+			case l1&EQ == 0 && eq&EQ == 0:
+				cells["both:changed=>Put"]++
+				if len(muts) != 1 || muts[0].Callee != txnPut || muts[0].Args[2] != itKey || muts[0].Args[3] != m1.Res+"#0" {
+					fail(p, "both/changed-puts", "Merge(stored) returned a changed value but it is not Put under the key exactly once")
+				}
+			default:
+				fail(p, "both/undetermined", "the merged value is acted upon without determining empty / equal / changed")
+			}
+		default:
+			fail(p, "dispatch-db", "the callback acts on an input key without determining the database side (dbEOF / dbKey == nil)")
+		}
+	}
+	want := []string{"db-only:nil=>Del", "db-only:equal=>none", "db-only:changed=>Put", "input-only:empty=>none", "input-only@end:value=>Append", "input-only:value=>Put", "both:empty=>Del", "both:equal=>none", "both:changed=>Put"}
+	missing := []string{}
+	for _, w := range want {
+		if cells[w] == 0 {
+			missing = append(missing, w)
+		}
+	}
+	if bad == 0 && len(missing) == 0 {
+		c.Ok(rule, name+"/table", fmt.Sprintf("%d paths, all nine decision cells present and exact: %v", len(paths), cells), pos)
+	} else if len(missing) > 0 {
+		c.Bad(rule, name+"/cells-missing", fmt.Sprintf("decision cells not found in the callback: %v", missing), pos, nil)
+	}
+}
+
+// ---------------------------------------------------------------------------
+// iterBoth: one step of the lock-step walk (C19-R3), the sortedness check
+// (C19-R4) and the comparator selection (C19-R5a, C11-R4a).
+// ---------------------------------------------------------------------------
+
+func ruleIterBoth(c *Check, rStep, rSorted, rCmp string) {
+	name := "lmdbenv/strategy.iterBoth"
+	fn, paths := c.walkFn(rStep, name, WalkConfig{})
+	if paths == nil {
+		return
+	}
+	pos := c.P.Pos(fn.Pos())
+	intKey := param(fn, 2)
+	cbName := "dyn:" + param(fn, 3)
+	cmpInt := "lmdbenv/strategy.cmpIntegerLittleEndian"
+	cells := map[string]int{}
+	bad, badS, badC := 0, 0, 0
+	nSorted, nUnsorted, nFirst := 0, 0, 0
+	for i := range paths {
+		p := &paths[i]
+		var hdr string
+		for _, e := range p.Events {
+			if e.Kind == "cond" && strings.HasPrefix(e.Cond.Atom.A, "isnil(loop:itKey@") {
+				hdr = strings.TrimSuffix(strings.TrimPrefix(e.Cond.Atom.A, "isnil(loop:itKey@"), ")")
+				break
+			}
+		}
+		if hdr == "" {
+			continue
+		}
+		L := func(n string) string { return "loop:" + n + "@" + hdr }
+		// comparator on this path
+		ik, f1 := boolCond(p, intKey, -1)
+		le, f2 := boolCond(p, "global:lmdbenv/strategy.isLittleEndian", -1)
+		useInt := f1 && ik && f2 && le
+		relOf := func(a, b string) Rel {
+			if useInt {
+				return p.State.RelOf("int", cmpInt+"("+a+", "+b+")", "const:0")
+			}
+			return p.State.RelOf("bytes", a, b)
+		}
+		for _, e := range p.Events {
+			if e.Kind == "call" && (e.Callee == cmpInt || e.Callee == "bytes.Compare") {
+				if (e.Callee == cmpInt) != useInt {
+					badC++
+					c.Bad(rCmp, name+"/comparator-selection", fmt.Sprintf("keys are compared with %s on a path with integerKey=%v, little-endian=%v: integer-key DBIs must be walked in native integer order and all others byte-wise", e.Callee, ik, le), evPos(c, &e), nil)
+				}
+			}
+		}
+		// effective state at the decision point
+		kIt, eofIt := L("itKey"), ""
+		fetchedIt := false
+		if nx := callsOf(p, itNext); len(nx) == 1 {
+			okn, f := boolCond(p, "isnil("+nx[0].Res+"#1)", -1)
+			if f && okn {
+				kIt, fetchedIt = nx[0].Res+"#0", true
+			} else if f && !okn {
+				if eof, f := condTruth(p, nx[0].Res+"#1 == global:io.EOF", -1); f && p.State.RelOf("int", nx[0].Res+"#1", "global:io.EOF") == EQ {
+					_ = eof
+					kIt, eofIt = "nil", "true"
+				} else {
+					if !(p.End == "return" && !retIsNilErr(p)) {
+						bad++
+						c.Bad(rStep, name+"/next-error", "an iterator error other than io.EOF does not abort", c.pathPos(p), describe(c, p))
+					}
+					continue
+				}
+			}
+		}
+		if eofIt == "" {
+			if t, f := boolCond(p, L("itEOF"), -1); f {
+				eofIt = fmt.Sprint(t)
+			}
+		}
+		// sortedness check on a freshly fetched key
+		if fetchedIt {
+			lenPrev := p.State.RelOf("int", "len("+L("prevKey")+")", "const:0")
+			r := relOf(L("prevKey"), kIt)
+			errRet := p.End == "return" && !retIsNilErr(p) && len(callsOf(p, cbName)) == 0 && len(callsOf(p, "(*lmdb.Cursor).Get")) == 0
+			switch {
+			case errRet:
+				nUnsorted++
+				if lenPrev == EQ || r&LT != 0 {
+					badS++
+					c.Bad(rSorted, name+"/rejects-valid", fmt.Sprintf("an input key is rejected as unsorted on a path where it may be valid (previous key length %s 0, previous ? key: %s): valid input must never be rejected", lenPrev, r), c.pathPos(p), describe(c, p))
+				}
+			default:
+				if lenPrev == EQ {
+					nFirst++
+				} else {
+					nSorted++
+					if r != LT {
+						badS++
+						c.Bad(rSorted, name+"/accepts-unsorted", fmt.Sprintf("an input key is accepted on a path where it is not established to be strictly greater than the previous key in the DBI's order (previous ? key: %s)", r), c.pathPos(p), describe(c, p))
+					}
+				}
+				// previous key remembered
+				cp := callsOf(p, "builtin:copy")
+				okc := false
+				for _, cc := range cp {
+					if cc.Args[1] == kIt && strings.HasPrefix(cc.Args[0], "slice("+L("prevKey")) {
+						okc = true
+					}
+				}
+				if !okc {
+					badS++
+					c.Bad(rSorted, name+"/prev-updated", "an accepted input key is not remembered as the previous key for the next check", c.pathPos(p), nil)
+				}
+			}
+			if errRet {
+				continue
+			}
+		}
+		kDb, vDb, eofDb := L("dbKey"), L("dbVal"), ""
+		if g := callsOf(p, "(*lmdb.Cursor).Get"); len(g) == 1 {
+			okg, f := boolCond(p, "isnil("+g[0].Res+"#2)", -1)
+			if f && okg {
+				kDb, vDb = g[0].Res+"#0", g[0].Res+"#1"
+			} else if f && !okg {
+				if nf, f := boolCond(p, "lmdb.IsNotFound("+g[0].Res+"#2)", -1); f && nf {
+					kDb, vDb, eofDb = g[0].Res+"#0", g[0].Res+"#1", "true"
+				} else {
+					if !(p.End == "return" && !retIsNilErr(p)) {
+						bad++
+						c.Bad(rStep, name+"/cursor-error", "a cursor error other than not-found does not abort", c.pathPos(p), describe(c, p))
+					}
+					continue
+				}
+			}
+		}
+		if eofDb == "" {
+			if t, f := boolCond(p, L("dbEOF"), -1); f {
+				eofDb = fmt.Sprint(t)
+			}
+		}
+		cb := callsOf(p, cbName)
+		if eofIt == "true" && eofDb == "true" {
+			cells["both-exhausted=>done"]++
+			if !(p.End == "return" && retIsNilErr(p) && len(cb) == 0) {
+				bad++
+				c.Bad(rStep, name+"/done", "both sides exhausted but the walk does not end successfully without a further callback", c.pathPos(p), describe(c, p))
+			}
+			continue
+		}
+		if len(cb) != 1 {
+			if p.End == "return" && !retIsNilErr(p) {
+				continue
+			}
+			bad++
+			c.Bad(rStep, name+"/one-callback", fmt.Sprintf("%d callbacks on one step", len(cb)), c.pathPos(p), describe(c, p))
+			continue
+		}
+		a := cb[0].Args
+		nextIt, nextDb := backedgeVal(p, "itKey"), backedgeVal(p, "dbKey")
+		cont := strings.HasPrefix(p.End, "backedge:")
+		check := func(cell string, want []string, wantIt, wantDb string) {
+			cells[cell]++
+			okk := len(a) == 5
+			for j := 0; okk && j < 5; j++ {
+				if a[j] != want[j] {
+					okk = false
+				}
+			}
+			if !okk {
+				bad++
+				c.Bad(rStep, name+"/"+cell, fmt.Sprintf("callback called with %v, expected %v", a, want), evPos(c, cb[0]), describe(c, p))
+				return
+			}
+			if cont && (nextIt != wantIt || nextDb != wantDb) {
+				bad++
+				c.Bad(rStep, name+"/"+cell+"/advance", fmt.Sprintf("after the callback the walk continues with itKey=%s dbKey=%s, expected itKey=%s dbKey=%s (advance exactly the side(s) that were consumed)", nextIt, nextDb, wantIt, wantDb), c.pathPos(p), nil)
+			}
+			if !cont {
+				// leaving after the callback: only with its error
+				ok2, f := boolCond(p, "isnil("+cb[0].Res+")", -1)
+				if !(f && !ok2 && p.End == "return" && !retIsNilErr(p)) {
+					bad++
+					c.Bad(rStep, name+"/"+cell+"/callback-error", "the walk ends after a callback that did not fail", c.pathPos(p), nil)
+				}
+			}
+		}
+		switch {
+		case eofIt == "true":
+			check("input-exhausted=>db-only", []string{"nil", kDb, vDb, "const:true", "const:false"}, kIt, "nil")
+		case eofDb == "true":
+			check("db-exhausted=>input-only", []string{kIt, "nil", "nil", "const:false", "const:true"}, "nil", kDbNext(kDb, L("dbKey")))
+		default:
+			r := relOf(kDb, kIt)
+			switch r {
+			case LT:
+				check("db<input=>db-only", []string{"nil", kDb, vDb, "const:false", "const:false"}, kIt, "nil")
+			case EQ:
+				check("db==input=>both", []string{kIt, kDb, vDb, "const:false", "const:false"}, "nil", "nil")
+			case GT:
+				check("db>input=>input-only", []string{kIt, "nil", "nil", "const:false", "const:false"}, "nil", kDb)
+			default:
+				bad++
+				c.Bad(rStep, name+"/compare", fmt.Sprintf("a callback is made without the key order being determined (db ? input: %s)", r), evPos(c, cb[0]), describe(c, p))
+			}
+		}
+	}
+	wantCells := []string{"both-exhausted=>done", "input-exhausted=>db-only", "db-exhausted=>input-only", "db<input=>db-only", "db==input=>both", "db>input=>input-only"}
+	var missing []string
+	for _, w := range wantCells {
+		if cells[w] == 0 {
+			missing = append(missing, w)
+		}
+	}
+	if len(missing) > 0 {
+		c.Bad(rStep, name+"/cells-missing", fmt.Sprintf("step cells not found: %v", missing), pos, nil)
+	} else if bad == 0 {
+		c.Ok(rStep, name+"/step-table", fmt.Sprintf("%d paths; all six step cells exact (arguments of the callback and which side advances): %v", len(paths), cells), pos)
+	}
+	if badS == 0 {
+		c.Ok(rSorted, name+"/sorted-check", fmt.Sprintf("every freshly fetched input key is either the first one (no previous key: %d paths), strictly greater than the previous key in the selected order (%d paths, previous key then updated), or rejected with an error (%d paths, only when not strictly greater)", nFirst, nSorted, nUnsorted), pos)
+	}
+	c.Floor(rSorted, nSorted, 2, "accepted-key paths")
+	c.Floor(rSorted, nUnsorted, 2, "rejected-key paths")
+	c.Floor(rSorted, nFirst, 1, "first-key paths")
+	if badC == 0 {
+		c.Ok(rCmp, name+"/comparator-selection", "cmpIntegerLittleEndian is used exactly on paths with integerKey ∧ little-endian host, bytes.Compare on all others, for the sortedness check and the step comparison alike", pos)
+	}
+}
+
+func kDbNext(kDb, loopDb string) string {
+	return kDb
+}
+
+// T-CMPINT (C19-R5b).
+func ruleCmpInt(c *Check, rule string) {
+	name := "lmdbenv/strategy.cmpIntegerLittleEndian"
+	fn, paths := c.walkFn(rule, name, WalkConfig{})
+	if paths == nil {
+		return
+	}
+	a, b := param(fn, 0), param(fn, 1)
+	ai, bi := "lmdbenv/strategy.bytesToInt("+a+")", "lmdbenv/strategy.bytesToInt("+b+")"
+	bad := 0
+	seen := map[string]bool{}
+	for i := range paths {
+		p := &paths[i]
+		r := p.State.RelOf("int", ai, bi)
+		want := map[Rel]string{LT: "const:-1", GT: "const:1", EQ: "const:0"}[r]
+		if want == "" || p.End != "return" || p.Rets[0] != want {
+			bad++
+			c.Bad(rule, name+"/three-way", fmt.Sprintf("bytesToInt(a) %s bytesToInt(b) returns %v", r, p.Rets), c.pathPos(p), nil)
+		}
+		seen[r.String()] = true
+	}
+	if bad == 0 && len(seen) == 3 {
+		c.Ok(rule, name+"/three-way", "returns -1 / 0 / +1 exactly for a<b / a==b / a>b as unsigned integers (arguments in order)", c.P.Pos(fn.Pos()))
+	} else if bad == 0 {
+		c.Undecided(rule, name+"/three-way", "expected three outcome cells", c.P.Pos(fn.Pos()))
+	}
+	// bytesToInt: width table
+	bn := "lmdbenv/strategy.bytesToInt"
+	bf, bp := c.walkFn(rule, bn, WalkConfig{})
+	if bp == nil {
+		return
+	}
+	arg := param(bf, 0)
+	widths := map[int64]string{}
+	for i := range bp {
+		p := &bp[i]
+		iv := p.State.ints["len("+arg+")"]
+		if iv != nil && iv.lo == iv.hi {
+			widths[iv.lo] = p.Rets[0]
+		}
+	}
+	okw := true
+	for w, dec := range map[int64]string{2: "Uint16", 4: "Uint32", 8: "Uint64"} {
+		got := widths[w]
+		if !strings.Contains(got, "(encoding/binary.littleEndian)."+dec+"(global:encoding/binary.LittleEndian, "+arg+")") {
+			okw = false
+			c.Bad(rule, bn+fmt.Sprintf("/width-%d", w), fmt.Sprintf("a %d-byte key is decoded as %q, expected little-endian %s", w, got, dec), c.P.Pos(bf.Pos()), nil)
+		}
+	}
+	if okw {
+		c.Ok(rule, bn+"/widths", "2-, 4- and 8-byte keys are decoded with the little-endian decoder of the same width (native unsigned integer order on little-endian hosts)", c.P.Pos(bf.Pos()))
+	}
+}
+
+// strategy.Update loop (C19-R1 / C01-R4b) and EmptyPut/doPut (C19-R7).
+func ruleUpdateLoop(c *Check, rule string) {
+	fn, paths := c.walkFn(rule, fnStratUpd, WalkConfig{})
+	if paths == nil {
+		return
+	}
+	pos := c.P.Pos(fn.Pos())
+	txn, dbi := param(fn, 0), param(fn, 1)
+	n, bad := 0, 0
+	for i := range paths {
+		p := &paths[i]
+		nx := callsOf(p, itNext)
+		if len(nx) != 1 {
+			continue
+		}
+		okn, f := boolCond(p, "isnil("+nx[0].Res+"#1)", -1)
+		if !f {
+			continue
+		}
+		if !okn {
+			eof := p.State.RelOf("int", nx[0].Res+"#1", "global:io.EOF") == EQ
+			if eof != (p.End == "return" && retIsNilErr(p)) {
+				bad++
+				c.Bad(rule, fnStratUpd+"/end", "the loop does not end successfully exactly on io.EOF", c.pathPos(p), describe(c, p))
+			}
+			continue
+		}
+		key := nx[0].Res + "#0"
+		gets := callsOf(p, "(*lmdb.Txn).Get")
+		if len(gets) != 1 || gets[0].Args[0] != txn || gets[0].Args[1] != dbi || gets[0].Args[2] != key {
+			bad++
+			c.Bad(rule, fnStratUpd+"/get", "the stored value is not read with Get(dbi, key) for the key returned by Next", c.pathPos(p), describe(c, p))
+			continue
+		}
+		g := gets[0]
+		gerr, gf := boolCond(p, "isnil("+g.Res+"#1)", -1)
+		if gf && !gerr {
+			if nf, f := boolCond(p, "lmdb.IsNotFound("+g.Res+"#1)", -1); !(f && nf) {
+				if !(p.End == "return" && !retIsNilErr(p)) {
+					bad++
+					c.Bad(rule, fnStratUpd+"/get-error", "a Get error other than not-found does not abort", c.pathPos(p), nil)
+				}
+				continue
+			}
+		}
+		mg := callsOf(p, itMerge)
+		if len(mg) != 1 || mg[0].Args[1] != g.Res+"#0" {
+			bad++
+			c.Bad(rule, fnStratUpd+"/merge", "the key is not merged with exactly the value stored for it", c.pathPos(p), describe(c, p))
+			continue
+		}
+		merr, mf := boolCond(p, "isnil("+mg[0].Res+"#1)", -1)
+		if mf && !merr {
+			if !(p.End == "return" && !retIsNilErr(p)) {
+				bad++
+				c.Bad(rule, fnStratUpd+"/merge-error", "a Merge error does not abort", c.pathPos(p), nil)
+			}
+			continue
+		}
+		sv := callsOf(p, "lmdbenv/strategy.setNewVal")
+		n++
+		if len(sv) != 1 || sv[0].Args[0] != txn || sv[0].Args[1] != dbi || sv[0].Args[2] != key || sv[0].Args[3] != g.Res+"#0" || sv[0].Args[4] != mg[0].Res+"#0" {
+			bad++
+			c.Bad(rule, fnStratUpd+"/apply", "the merge decision is not applied with setNewVal(txn, dbi, key, stored, merged)", c.pathPos(p), describe(c, p))
+		}
+		if len(mutators(p)) != 0 {
+			bad++
+			c.Bad(rule, fnStratUpd+"/direct-mutation", "Update mutates LMDB other than through setNewVal", c.pathPos(p), nil)
+		}
+	}
+	if bad == 0 {
+		c.Ok(rule, fnStratUpd+"/loop", fmt.Sprintf("%d applying paths: every key from Next is looked up, merged with exactly its stored value (not-found ⇒ nil) and applied through setNewVal; io.EOF ends the loop, every other error aborts", n), pos)
+	}
+	c.Floor(rule, n, 2, "applying paths of strategy.Update")
+}
+
+func ruleEmptyPut(c *Check, rule string) {
+	fn, paths := c.walkFn(rule, fnEmptyPut, WalkConfig{})
+	if paths == nil {
+		return
+	}
+	pos := c.P.Pos(fn.Pos())
+	n, bad := 0, 0
+	for i := range paths {
+		p := &paths[i]
+		dp := callsOf(p, "lmdbenv/strategy.doPut")
+		dr := callsOf(p, txnDrop)
+		if len(dp) == 0 {
+			continue
+		}
+		n++
+		if !(len(dr) == 1 && eventIndex(p, dr[0]) < eventIndex(p, dp[0]) && dr[0].Args[2] == "const:false" && dr[0].Args[1] == param(fn, 1) && dp[0].Args[1] == param(fn, 1)) {
+			bad++
+			c.Bad(rule, fnEmptyPut+"/drop-then-put", "the DBI is not emptied (Drop(dbi, false), keeping the DBI) before being refilled", c.pathPos(p), describe(c, p))
+		}
+		if tr, f := boolCond(p, "isnil("+dr[0].Res+")", eventIndex(p, dp[0])); !f || !tr {
+			bad++
+			c.Bad(rule, fnEmptyPut+"/drop-error", "the refill runs although emptying the DBI failed", c.pathPos(p), nil)
+		}
+	}
+	if bad == 0 && n > 0 {
+		c.Ok(rule, fnEmptyPut, "Drop(dbi, del=false) succeeds before doPut refills the same DBI", pos)
+	}
+	c.Floor(rule, n, 1, "EmptyPut paths reaching doPut")
+	// doPut: every input key is merged with nil and put unless empty
+	dn := "lmdbenv/strategy.doPut"
+	df, dps := c.walkFn(rule, dn, WalkConfig{})
+	if dps == nil {
+		return
+	}
+	nb, badp := 0, 0
+	for i := range dps {
+		p := &dps[i]
+		if !strings.HasPrefix(p.End, "backedge:") {
+			continue
+		}
+		nb++
+		nx := callsOf(p, itNext)
+		mg := callsOf(p, itMerge)
+		muts := mutators(p)
+		if len(nx) != 1 || len(mg) != 1 || mg[0].Args[1] != "nil" {
+			badp++
+			c.Bad(rule, dn+"/merge-nil", "an input key is not merged against nil", c.pathPos(p), describe(c, p))
+			continue
+		}
+		l := p.State.RelOf("int", "len("+mg[0].Res+"#0)", "const:0")
+		if l == EQ {
+			ie, f := boolCond(p, param(df, 3), -1)
+			switch {
+			case f && ie && len(muts) != 0:
+				badp++
+				c.Bad(rule, dn+"/empty-skipped", "an empty merge result is written into the freshly emptied DBI", c.pathPos(p), nil)
+			case f && !ie && !(len(muts) == 1 && muts[0].Callee == txnDel && muts[0].Args[2] == nx[0].Res+"#0"):
+				badp++
+				c.Bad(rule, dn+"/empty-deletes", "an empty merge result does not delete the key (non-empty DBI variant)", c.pathPos(p), nil)
+			case !f:
+				badp++
+				c.Bad(rule, dn+"/empty-undetermined", "empty merge result handled without testing isEmpty", c.pathPos(p), nil)
+			}
+		} else if l&EQ == 0 {
+			if len(muts) != 1 || muts[0].Callee != txnPut || muts[0].Args[2] != nx[0].Res+"#0" || muts[0].Args[3] != mg[0].Res+"#0" {
+				badp++
+				c.Bad(rule, dn+"/put", "a non-empty merge result is not Put once under its key", c.pathPos(p), describe(c, p))
+			}
+		} else {
+			badp++
+			c.Bad(rule, dn+"/undetermined", "emptiness of the merge result not tested", c.pathPos(p), nil)
+		}
+	}
+	if badp == 0 && nb > 0 {
+		c.Ok(rule, dn, fmt.Sprintf("%d continuing iterations: Merge(nil) per key; empty ⇒ skipped, otherwise one Put(key, value)", nb), c.P.Pos(df.Pos()))
 	}
 }
